@@ -38,11 +38,12 @@ theorem uncached_runs_body (P : Params R) (env : Env) (h : Hdr) (arg : Option Ex
 
 example : (exPage false).cached = false := rfl
 
-/-- **hit**: caching enabled and the back end holds `v` under the section's key: `v` is delivered, the body is not
+/-- **hit**: caching enabled and the back end holds `v` under the section's key – `visible`: stored, and (when the
+    implementation honours `starttime`) not before the template was compiled: `v` is delivered, the body is not
     executed – the result is the same for every body – and the store is untouched. -/
 theorem hit_serves_stored_value (P : Params R) (env : Env) (h : Hdr) (arg : Option Expr) (site : Bool)
     (body rest : Items) (st : St R) (v : Str) (hc : h.cached = true) (hen : st.enabled P.tid = true)
-    (hs : st.store (backendKey P st h (scope P h env arg)) = some v) :
+    (hs : visible P.be st P.tid (backendKey P st h (scope P h env arg)) = some v) :
     run P env (.inv h arg site body rest) st =
       let st1 := (afterCall P st h (scope P h env arg)).emit
         (.enter P.tid (fname h) (backendKey P st h (scope P h env arg)) (.hit v))
@@ -52,7 +53,7 @@ theorem hit_serves_stored_value (P : Params R) (env : Env) (h : Hdr) (arg : Opti
 
 theorem hit_ignores_body (P : Params R) (env : Env) (h : Hdr) (arg : Option Expr) (site : Bool)
     (body body' rest : Items) (st : St R) (v : Str) (hc : h.cached = true) (hen : st.enabled P.tid = true)
-    (hs : st.store (backendKey P st h (scope P h env arg)) = some v) :
+    (hs : visible P.be st P.tid (backendKey P st h (scope P h env arg)) = some v) :
     run P env (.inv h arg site body rest) st = run P env (.inv h arg site body' rest) st := by
   rw [run_inv_hit P env h arg site body rest st v hc hen hs, run_inv_hit P env h arg site body' rest st v hc hen hs]
 
@@ -62,7 +63,7 @@ theorem hit_ignores_body (P : Params R) (env : Env) (h : Hdr) (arg : Option Expr
     scope, render context and the store / flags / memos the creation function started from. -/
 theorem miss_creates_uncached_output (P : Params R) (env : Env) (h : Hdr) (arg : Option Expr) (site : Bool)
     (body rest : Items) (st : St R) (hc : h.cached = true) (hen : st.enabled P.tid = true)
-    (hs : st.store (backendKey P st h (scope P h env arg)) = none) :
+    (hs : visible P.be st P.tid (backendKey P st h (scope P h env arg)) = none) :
     run P env (.inv h arg site body rest) st =
       let env' := scope P h env arg
       let K := backendKey P st h env'
@@ -102,9 +103,10 @@ example :
     `cache_enabled` was false; otherwise it served a stored value (`hit`: body not run, see
     `hit_serves_stored_value`) iff the back end held one under the section's key, and ran the body (`miss`, see
     `miss_creates_uncached_output`) iff it held none – where "held" means: put there by a completed creation or a
-    `set`, and not removed by an `invalidate…` since. -/
+    `set`, not removed by an `invalidate…` since, and – on a back end that honours `starttime` – not older than the
+    asking template's compile stamp (`Spec.visible`). -/
 theorem body_runs_iff_missing (w : World R) (hist : List Op) :
-    traceAll w evRuns (runHist w hist).trace = true :=
+    traceAll w (evRuns w.be) (runHist w hist).trace = true :=
   (runHist_sync w hist).runs
 
 /-- **replays_creation_output.**  In every history, whatever a cached section serves is exactly the value of the
@@ -118,13 +120,15 @@ theorem replays_creation_output (w : World R) (hist : List Op) :
 /-- a render's output and the store / flags / memos it leaves depend on the store / flags / memos it starts from only
     (not on the trace): the snapshot recorded with a creation determines the uncached output "at that moment" -/
 theorem output_depends_on_snapshot_only (P : Params R) (its : Items) (env : Env) (a b : St R)
-    (h : a.store = b.store ∧ a.enabled = b.enabled ∧ a.regions = b.regions) :
+    (h : a.snap = b.snap) :
     (run P env its a).1 = (run P env its b).1 ∧ (run P env its a).2.snap = (run P env its b).2.snap := by
-  have := run_snap P its env a b ⟨h.1, h.2.1, h.2.2⟩
-  exact ⟨this.1, by simp [St.snap, this.2.store, this.2.enabled, this.2.regions]⟩
+  have h' : SnapEq a b := by
+    simp only [St.snap, Snap.mk.injEq] at h
+    exact ⟨h.1, h.2.1, h.2.2.1, h.2.2.2.1, h.2.2.2.2.1, h.2.2.2.2.2⟩
+  have := run_snap P its env a b h'
+  exact ⟨this.1, by simp [St.snap, this.2.store, this.2.times, this.2.stamp, this.2.clock, this.2.enabled, this.2.regions]⟩
 
-example : (St.init exW).store = (St.init exW).snap.toSt.store ∧ (St.init exW).enabled = (St.init exW).snap.toSt.enabled ∧
-    (St.init exW).regions = (St.init exW).snap.toSt.regions := ⟨rfl, rfl, rfl⟩
+example : (St.init exW).snap = (St.init exW).snap.toSt.snap := rfl
 
 /-- **replays_creation_output_trace.**  For every world and every history, at every hit in the trace: the value served
     under key `K` is the value of the entry the replayed specification state holds under `K`; that entry was put by the
@@ -153,7 +157,7 @@ theorem store_is_replayed_spec (w : World R) (hist : List Op) :
 theorem render_replays_page (w : World R) (st : St R) (t : Nat) (tm : Tmpl) (c : Env) (v : Str)
     (ht : w.tmpls[t]? = some tm) (hk : tm.page.kind = .page) (hc : tm.page.cached = true)
     (hb : tm.page.buffered = false) (hen : st.enabled t = true)
-    (hs : st.store (backendKey ⟨w.be, tm, t, c⟩ st tm.page c) = some v) :
+    (hs : visible w.be st t (backendKey ⟨w.be, tm, t, c⟩ st tm.page c) = some v) :
     (step w st (.render t c)).1 = .out v := by
   have hsc : scope (⟨w.be, tm, t, c⟩ : Params R) tm.page c none = c := by
     simp [scope, hk, isInline]
@@ -163,7 +167,7 @@ theorem render_replays_page (w : World R) (st : St R) (t : Nat) (tm : Tmpl) (c :
 
 example : (exTm "/a-b.html" "first ").page.kind = .page ∧ (exTm "/a-b.html" "first ").page.cached = true ∧
     (exTm "/a-b.html" "first ").page.buffered = false ∧
-    (runHist exW [.render 0 (ctx "1")]).store
+    visible exW.be (runHist exW [.render 0 (ctx "1")]) 0
       (backendKey ⟨exW.be, exTm "/a-b.html" "first ", 0, ctx "2"⟩ (runHist exW [.render 0 (ctx "1")])
         (exTm "/a-b.html" "first ").page (ctx "2")) = some "first 1".toList := by decide +kernel
 
@@ -446,7 +450,7 @@ theorem invalidate_def_is_callable_name (h : Hdr) :
 /-! ## delivery: cached × buffered × filtered -/
 
 /-- **cached_delivers_like_uncached.**  A cached section hands its content over the way the uncached section does:
-    returned iff `buffered` (then an expression filter at the call site applies to it, and a block's value is dropped),
+    returned iff `buffered` (then an expression filter at the call site applies to it; a block's call site writes it),
     written otherwise – for module-level callables and, since `write_inline_def` passes `buffered` on
     (`gen_inline_passes_buffered`, regenerated from `codegen.py`), for nested defs and anonymous blocks too. -/
 theorem cached_delivers_like_uncached (h : Hdr) (site : Bool) (v : Str) :
@@ -455,12 +459,12 @@ theorem cached_delivers_like_uncached (h : Hdr) (site : Bool) (v : Str) :
   cases hc : h.cached <;> simp [deliver, returnsValue, hc, hg]
 
 /-- `<%def name="g()" cached="True" buffered="True">` nested in a def, called as `${g() | wrapS}` with content `G`:
-    `<G>` cached and uncached; a buffered anonymous block shows nothing, cached or not -/
+    `<G>` cached and uncached; a buffered anonymous block shows its content where it stands (/repo 248d875), cached or not -/
 example :
     deliver exG true "G".toList = "<G>".toList ∧
     deliver { exG with cached := false } true "G".toList = "<G>".toList ∧
-    deliver { exG with kind := .anonBlock } false "G".toList = [] ∧
-    deliver { exG with kind := .anonBlock, cached := false } false "G".toList = [] := by decide +kernel
+    deliver { exG with kind := .anonBlock } false "G".toList = "G".toList ∧
+    deliver { exG with kind := .anonBlock, cached := false } false "G".toList = "G".toList := by decide +kernel
 
 /-- the section's own filter is applied before the value is stored, so a hit replays the filtered text -/
 theorem stored_value_is_filtered (P : Params R) (env' : Env) (h : Hdr) (body : Items) (st : St R) :
@@ -510,14 +514,82 @@ theorem no_cross_template_service_counterexample :
     responses exWDistinct (St.init exWDistinct) exHist = [.out "first 1".toList, .out "second 2".toList] := by
   decide +kernel
 
+/-! ## `starttime`: a template that replaces another one under the same cache id is not served its predecessor's entries
+
+`Cache.starttime` is the compile stamp of the template (`module._modified_time`); mako's Beaker implementation hands it to
+Beaker on every call, with or without a timeout (`gen_beaker_starttime`, regenerated from `ext/beaker_cache.py`), and Beaker
+treats older entries as absent.  This is the `honoursStarttime` part of the abstract back end's contract; the in-tree
+reference back end of the harness implements it too, dogpile.cache's plugin does not.  It is also what bounds F5 on Beaker:
+of two *live* templates with one cache id only entries stored after **both** were compiled are shared; a template compiled
+later (a reload, a second `put_string`) starts clean.
+-/
+
+/-- an entry stored before the asking template's compile stamp is not served: the invocation is a miss (see
+    `miss_creates_uncached_output`; the stale entry is overwritten) and `cache.get` finds nothing -/
+theorem stale_entry_not_served (be : Backend R) (st : St R) (tid : Nat) (K : Key R)
+    (hh : be.honoursStarttime = true) (hold : st.times K < st.stamp tid) : visible be st tid K = none := by
+  unfold visible
+  cases st.store K <;> simp [hh, hold]
+
+example : exBe.honoursStarttime = true ∧
+    (runHist exWTakeover [.render 0 (ctx "1"), .compile 1]).times (backendKey ⟨exBe, exTm "/p.html" "v2 ", 1, ctx "2"⟩
+        (runHist exWTakeover [.render 0 (ctx "1"), .compile 1]) (exPage true) (ctx "2")) <
+      (runHist exWTakeover [.render 0 (ctx "1"), .compile 1]).stamp 1 := by decide +kernel
+
+/-- **served_entries_are_fresh.**  For every world whose back end honours `starttime` and every history: whatever is
+    served was stored no earlier than the serving template was (last) compiled. -/
+theorem served_entries_are_fresh (w : World R) (hist : List Op) :
+    traceAll w (evFresh w.be) (runHist w hist).trace = true :=
+  (runHist_sync w hist).fresh
+
+/-- **recompiled_template_starts_clean.**  After any history, a template that is compiled *now* (the URI re-bound with
+    `put_string`, a file reloaded by the lookup, …) finds nothing of what the back end holds – whoever put it there, under
+    whatever cache id – when the back end honours `starttime`. -/
+theorem recompiled_template_starts_clean (w : World R) (hist : List Op) (t : Nat) (tm : Tmpl) (K : Key R)
+    (ht : w.tmpls[t]? = some tm) (hh : w.be.honoursStarttime = true) :
+    visible w.be (runHist w (hist ++ [.compile t])) t K = none := by
+  have hsync := runHist_sync w hist
+  have hrun : runHist w (hist ++ [.compile t]) = (step w (runHist w hist) (.compile t)).2 := by
+    unfold runHist
+    generalize St.init w = st0
+    induction hist generalizing st0 with
+    | nil => rfl
+    | cons op ops ih => simpa [runFrom] using ih hsync _
+  rw [hrun]
+  simp only [step, ht]
+  unfold visible
+  cases hs : (runHist w hist).store K with
+  | none => simp [hs]
+  | some v =>
+    have := hsync.past K v hs
+    simp [hs, hh, this]
+
+example : exWTakeover.tmpls[1]? = some (exTm "/p.html" "v2 ") ∧ exWTakeover.be.honoursStarttime = true := ⟨rfl, rfl⟩
+
+/-- `put_string` twice on one URI (index 1 replaces index 0): with `starttime` honoured the second template runs its own
+    body and renders its own text; a back end that ignores `starttime` serves it the first template's page -/
+example :
+    responses exWTakeover (St.init exWTakeover) [.render 0 (ctx "1"), .compile 1, .render 1 (ctx "2"), .render 1 (ctx "3")] =
+      [.out "v1 1".toList, .unit, .out "v2 2".toList, .out "v2 2".toList] ∧
+    ticksOf (runHist exWTakeover [.render 0 (ctx "1"), .compile 1, .render 1 (ctx "2"), .render 1 (ctx "3")]).trace =
+      ["page".toList, "page".toList] ∧
+    responses exWTakeoverNoStart (St.init exWTakeoverNoStart) [.render 0 (ctx "1"), .compile 1, .render 1 (ctx "2")] =
+      [.out "v1 1".toList, .unit, .out "v1 1".toList] := by decide +kernel
+
 /-! ## `cache.set` / `cache.get` -/
 
 /-- **set_then_get.**  What `cache.set(k, v, **kw)` puts, `cache.get(k, **kw)` returns (the `CacheImpl` contract; mako's
     own Beaker implementation has `set` – `gen_beaker_defines_set`, regenerated from `ext/beaker_cache.py`). -/
 theorem set_then_get (w : World R) (st : St R) (t : Nat) (tm : Tmpl) (k v : Str) (kw : Kw)
-    (ht : w.tmpls[t]? = some tm) :
+    (ht : w.tmpls[t]? = some tm) (hle : st.stamp t ≤ st.clock) :
     (step w (step w st (.set t k v kw)).2 (.get t k kw)).1 = .got (some v) := by
-  simp [step, ht]
+  simp [step, ht, visible]
+  omega
+
+/-- the hypothesis of `set_then_get` holds after every history: no template is stamped in the future -/
+theorem stamps_le_clock (w : World R) (hist : List Op) (t : Nat) :
+    (runHist w hist).stamp t ≤ (runHist w hist).clock :=
+  (runHist_sync w hist).le t
 
 example : exW.tmpls[0]? = some (exTm "/a-b.html" "first ") := rfl
 
@@ -525,7 +597,7 @@ example : exW.tmpls[0]? = some (exTm "/a-b.html" "first ") := rfl
 theorem invalidate_then_get (w : World R) (st : St R) (t : Nat) (tm : Tmpl) (k : Str) (kw : Kw)
     (ht : w.tmpls[t]? = some tm) :
     (step w (step w st (.invalidate t k kw)).2 (.get t k kw)).1 = .got none := by
-  simp [step, ht, invalidateCore, getCacheKw]
+  simp [step, ht, invalidateCore, getCacheKw, visible]
 
 /-- a value put with `set` under a section's key is what the section then serves (a `set` is an entry like any other) -/
 example : responses exW (St.init exW) [.set 0 "render_body".toList "SET".toList [], .render 0 (ctx "1")] =
